@@ -216,7 +216,14 @@ def m_option_copied(eng, ctx, f, path, args, dty):
     return e
 
 
+def _arith(fn):
+    return lambda eng, ctx, f, path, args, dty: fn(args[0], args[1])
+
+
 BASE = {
+    r"core::num::wrapping_sub$": _arith(lambda a, b: a - b),
+    r"core::num::wrapping_add$": _arith(lambda a, b: a + b),
+    r"core::num::wrapping_mul$": _arith(lambda a, b: a * b),
     r"Atomic\w*::new$": m_atomic_new,
     r"^Result::is_ok$": _is_variant(0),
     r"^Result::is_err$": _is_variant(1),
